@@ -187,6 +187,13 @@ def handle (case : String) : String :=
     match n.toNat?, argc.toNat? with
     | some n, some argc => modelCycle n argc
     | _, _ => "bad-case"
+  | ["k", "dbgwin", l, n] =>
+    match l.toNat?, n.toNat? with
+    | some l, some n =>
+      match MJ.IntOps.debugWindowK (some l) n with
+      | .ok (pre, cur, post) => s!"ok:{joinNat pre};{joinNat cur};{joinNat post}"
+      | .panic => "panic"
+    | _, _ => "bad-case"
   | ["k", "reprstr", cps] =>
     let cs : List Char := if cps = "_" then [] else (cps.splitOn ",").filterMap (fun t => t.toNat?.map Char.ofNat)
     match MJ.ReprStr.reprOut cs with
